@@ -167,7 +167,8 @@ def path_robot(c, job):
             self.initset = PRESET
 
         def setup(self):
-            log.append(("setup", "c1", getattr(self, "dep", "<missing>"), getattr(self, "c2", "<missing>")))
+            log.append(("setup", "c1", getattr(self, "dep", "<missing>"), getattr(self, "c2", "<missing>"),
+                        getattr(getattr(self, "c2", None), "c1", "<missing>")))
 
         def execute(self):
             pass
@@ -182,7 +183,7 @@ def path_robot(c, job):
             self.kw = kw
 
         def setup(self):
-            log.append(("setup", "c2", getattr(self, "c1", "<missing>"), None))
+            log.append(("setup", "c2", getattr(self, "c1", "<missing>"), None, getattr(getattr(self, "c1", None), "dep", "<missing>")))
 
         def execute(self):
             pass
@@ -260,7 +261,8 @@ def path_robot(c, job):
     # every setup() ran after all injection
     s1 = [e for e in log if e[1] == "c1"]
     s2 = [e for e in log if e[1] == "c2"]
-    c.prove("C08.robot injected-before-any-setup", len(s1) == 1 and len(s2) == 1 and s1[0][2] is want and s1[0][3] is c2 and s2[0][2] is c1,
+    c.prove("C08.robot injected-before-any-setup", len(s1) == 1 and len(s2) == 1 and s1[0][2] is want and s1[0][3] is c2 and s2[0][2] is c1
+            and s1[0][4] is c1 and s2[0][4] is want,  # ... including what is reached through other components
             info=dict(nsetup=len(log)))
 
 
